@@ -21,7 +21,7 @@ Lemma skel_hb_RecordsFrom_ok : skel_hb_RecordsFrom =
 Proof. reflexivity. Qed.
 
 Lemma skel_hb_ResetWithIndex_ok : skel_hb_ResetWithIndex =
-  [Lock "h"; DeferUnlock "h"; Assign "h.index" "= index"; Assign "h.head" "= 0"; Assign "h.tail" "= 0"; Assign "h.flushCount" "= defaultFlushCount"].
+  [Lock "h"; DeferUnlock "h"; Assign "h.index" "= index"; Assign "h.head" "= 0"; Assign "h.tail" "= 0"; Assign "h.flushCount" "= defaultFlushCount"; Call "persist"].
 Proof. reflexivity. Qed.
 
 Lemma skel_hb_GetNextIndex_ok : skel_hb_GetNextIndex =
@@ -69,7 +69,7 @@ Lemma records_from_loop_ok : records_from_loop =
 Proof. reflexivity. Qed.
 
 Lemma skel_syncHistoryRegion_ok : skel_syncHistoryRegion =
-  [Assign "startIndex" ":= request.GetStartIndex()"; Call "RecordsFrom"; Assign "records" ":= s.history.RecordsFrom(startIndex)"; IfE "len(records) == 0" [Call "GetNextIndex"; IfE "s.history.GetNextIndex() == startIndex" [Ret] []; IfE "startIndex == 0" [Call "GetRegions"; Assign "regions" ":= s.server.GetRegions()"; Assign "lastIndex" ":= 0"; Assign "metas" ":= make([]*metapb.Region, 0, maxSyncRegionBatchSize)"; Assign "stats" ":= make([]*pdpb.RegionStat, 0, maxSyncRegionBatchSize)"; Assign "leaders" ":= make([]*metapb.Peer, 0, maxSyncRegionBatchSize)"; ForE [Assign "metas" "= append(metas, r.GetMeta())"; Assign "stats" "= append(stats, r.GetStat())"; Assign "leader" ":= &metapb.Peer{}"; IfE "r.GetLeader() != nil" [Assign "leader" "= r.GetLeader()"] []; Assign "leaders" "= append(leaders, leader)"; Assign "lastIndex" "+= len(metas)"; Call "Send"; Assign "metas" "= metas[:0]"; Assign "stats" "= stats[:0]"]; Ret] []; Ret] []; Call "GetNextIndex"; Assign "regions" ":= make([]*metapb.Region, len(records))"; Assign "stats" ":= make([]*pdpb.RegionStat, len(records))"; Assign "leaders" ":= make([]*metapb.Peer, len(records))"; ForE [Assign "leader" ":= &metapb.Peer{}"; IfE "r.GetLeader() != nil" [Assign "leader" "= r.GetLeader()"] []]; Call "Send"; Ret].
+  [Assign "startIndex" ":= request.GetStartIndex()"; Call "RecordsFrom"; Assign "records" ":= s.history.RecordsFrom(startIndex)"; IfE "len(records) == 0" [Call "GetNextIndex"; IfE "s.history.GetNextIndex() == startIndex" [Ret] []; IfE "startIndex == 0" [Call "GetRegions"; Assign "regions" ":= s.server.GetRegions()"; Assign "lastIndex" ":= 0"; Assign "metas" ":= make([]*metapb.Region, 0, maxSyncRegionBatchSize)"; Assign "stats" ":= make([]*pdpb.RegionStat, 0, maxSyncRegionBatchSize)"; Assign "leaders" ":= make([]*metapb.Peer, 0, maxSyncRegionBatchSize)"; ForE [Assign "metas" "= append(metas, r.GetMeta())"; Assign "stats" "= append(stats, r.GetStat())"; Assign "leader" ":= &metapb.Peer{}"; IfE "r.GetLeader() != nil" [Assign "leader" "= r.GetLeader()"] []; Assign "leaders" "= append(leaders, leader)"; Assign "lastIndex" "+= len(metas)"; Call "Send"; Assign "metas" "= metas[:0]"; Assign "stats" "= stats[:0]"; Assign "leaders" "= leaders[:0]"]; Ret] []; Ret] []; Call "GetNextIndex"; Assign "regions" ":= make([]*metapb.Region, len(records))"; Assign "stats" ":= make([]*pdpb.RegionStat, len(records))"; Assign "leaders" ":= make([]*metapb.Peer, len(records))"; ForE [Assign "leader" ":= &metapb.Peer{}"; IfE "r.GetLeader() != nil" [Assign "leader" "= r.GetLeader()"] []]; Call "Send"; Ret].
 Proof. reflexivity. Qed.
 
 Lemma skel_RunServer_ok : skel_RunServer =
@@ -85,7 +85,7 @@ Lemma full_sync_appended_ok : full_sync_appended =
 Proof. reflexivity. Qed.
 
 Lemma full_sync_truncated_ok : full_sync_truncated =
-  ["metas"; "stats"].
+  ["metas"; "stats"; "leaders"].
 Proof. reflexivity. Qed.
 
 Lemma full_sync_fields_ok : full_sync_fields =
@@ -105,7 +105,7 @@ Lemma skel_StartSyncWithLeader_ok : skel_StartSyncWithLeader =
 Proof. reflexivity. Qed.
 
 
-(* S7 in structural form: the loop appends to three accumulators and truncates only two of them *)
-Lemma full_sync_leaders_not_truncated :
-  In "leaders" full_sync_appended /\ ~ In "leaders" full_sync_truncated.
-Proof. split; [cbn; tauto|]. cbn. intros [H|[H|[]]]; discriminate. Qed.
+(* S7 (fixed by 7335a72): every accumulator the loop appends to is truncated after a batch has been sent *)
+Lemma full_sync_all_truncated :
+  forall x, In x full_sync_appended -> In x full_sync_truncated.
+Proof. intros x H. cbn in *. tauto. Qed.
